@@ -35,6 +35,11 @@ CHECKS = {
    technique='bounded-exhaustive enumeration of location-pair lattice x symbolic distances x step splits x overstep flag, multi-waypoint tracks, same-object sequences, all airport pairs; oracle = geodesic primitive + haversine cross-check',
    text='All ordered pairs of the longitude/latitude lattice (antimeridian, polar, near-antipodal, equal lon/lat) with every distance of the symbolic set are evaluated on the real GroundTrack and Mission code and checked against the independent geodesic inverse.',
    note='pyproj Geod is the trusted primitive (cross-checked by haversine to 0.6 %); lattice only', ref='DESIGN.md §4 C15'),
+
+ 'C20': dict(cat='model_checking', engine='SCHED',
+   technique='stateless exploration of all thread schedules up to a preemption bound (iterative context bounding) of real threads under a sys.settrace-driven deterministic scheduler, opcode granularity in the constructor',
+   text='Every schedule of two (thorough: three) real threads constructing a first store with at most 1 (thorough: 2-3) preemptions is executed on the real constructor; scheduling points at every line of store.py and every bytecode of TrajectoryStore.__init__; invariant: at most one owner thread, losers get RuntimeError, no deadlock; sequential orders included.',
+   note='CPython tracing semantics trusted; bound = preemptions, executions run to completion; locks replaced by cooperative wrappers', ref='DESIGN.md §4 C20'),
 }
 NOT_YET = {}
 
